@@ -261,8 +261,16 @@ def run(rep):
                 model = o
             impl = m['impl']
             rep.case('fill', line, sample=dict(given=m['given'], impl=str(impl)[:120]))
+            def cond(k):
+                # W**2 - Mp2 (and W**2 + Q2 - Mp2) cancel near threshold: an ulp of W**2 is amplified
+                kw_ = m['kw']
+                if k == 'Q2' and 'W' in kw_ and 'xB' in kw_:
+                    return 1 + (kw_['W'] ** 2 + Mp2) / max(abs(kw_['W'] ** 2 - Mp2), 1e-300)
+                if k in ('xB', 'xi') and 'W' in kw_ and 'Q2' in kw_:
+                    return 1 + (kw_['W'] ** 2 + Mp2) / max(abs(kw_['W'] ** 2 + kw_['Q2'] - Mp2), 1e-300)
+                return 1
             agree = (impl == model) if (isinstance(impl, str) or isinstance(model, str)) else (
-                'ALTERED' not in impl and all(close(impl[k], model[k], 4) for k in model))
+                'ALTERED' not in impl and all(close(impl[k], model[k], 4 * cond(k)) for k in model))
             if agree:
                 continue
             # property oracle on the real code
